@@ -1,6 +1,7 @@
 package exif2
 
 import (
+	"io"
 	"sync"
 
 	"github.com/evanoberholster/imagemeta/exif2/tag"
@@ -157,6 +158,10 @@ func (ir *ifdReader) discard(n int) (err error) {
 		}
 		ir.po += uint32(discarded)
 		n -= discarded
+	}
+	if n == 0 && err == io.EOF {
+		// a reader may report io.EOF together with the last bytes: the skip itself succeeded
+		err = nil
 	}
 	ir.readError(err)
 	return err
